@@ -453,6 +453,104 @@ func runSiblingAbort(rec *vcommon.Rec, carrier, closer, aborter string) {
 	rec.Stat("bytes_verified_before_eof", c.Len)
 }
 
+// runSiblingStalled: a sibling connection of the same session has a target that does not read, with 3 MiB (under the
+// multiplexer's 4 MiB receive buffer, which all connections of a session share) written to it by its application. A write
+// and close on another connection must still be delivered, then end-of-stream.
+func runSiblingStalled(rec *vcommon.Rec, carrier, closer string) {
+	c := &c17Case{Carrier: carrier, Closer: closer, Mode: "sibling-target-does-not-read", Len: 1000, Others: 1, Seed: rec.Seed()*10000 + 9600}
+	rec.Mark(c)
+	p, err := e2e.Start(e2e.Options{Carrier: carrier, Tag: "t"})
+	if err != nil {
+		rec.Violation(carrier+":setup-failed", c, err.Error())
+		return
+	}
+	defer p.Close()
+	sapp, stgt, o, err := p.Open("echo")
+	if err != nil || o != e2e.Done {
+		rec.Inconclusive("sibling-stalled: open failed", c)
+		return
+	}
+	defer sapp.Close()
+	defer stgt.Close()
+	// the sibling's application writes 3 MiB; nobody reads them at the target. The write is finished (or blocked in
+	// flow control for good) when it has not moved for a while: it runs on its own goroutine and is never waited for.
+	var wrote int64
+	go func() {
+		buf := make([]byte, 32768)
+		for atomic.LoadInt64(&wrote) < 3<<20 {
+			n, err := sapp.Write(buf)
+			atomic.AddInt64(&wrote, int64(n))
+			e2e.Bump(n)
+			if err != nil {
+				return
+			}
+		}
+	}()
+	last, same := int64(-1), 0
+	for i := 0; i < 600 && same < 10; i++ { // until the sibling's write stands still (all written, or blocked)
+		time.Sleep(50 * time.Millisecond)
+		if w := atomic.LoadInt64(&wrote); w == last {
+			same++
+		} else {
+			last, same = w, 0
+		}
+	}
+	rec.StatMax("sibling_stalled_bytes_written_into_the_unread_connection", atomic.LoadInt64(&wrote))
+	app, tgt, o, err := p.Open("echo")
+	if err != nil || o != e2e.Done {
+		if o == e2e.Inconclusive {
+			rec.Inconclusive("sibling-stalled: busy", c)
+			return
+		}
+		rec.Case(fmt.Sprintf("sibling-stalled/%s/%s", carrier, closer), true)
+		rec.Violation(fmt.Sprintf("%s:closer=%s:sibling-target-does-not-read:open-stalled", carrier, closer), c, map[string]interface{}{"sibling_bytes_written": atomic.LoadInt64(&wrote)})
+		return
+	}
+	defer app.Close()
+	defer tgt.Close()
+	w, r, dir := app, tgt, "c2t"
+	if closer == "target" {
+		w, r, dir = tgt, app, "t2c"
+	}
+	st := &e2e.Stream{Key: uint64(c.Seed) + 1, Len: c.Len}
+	var wf, rf *e2e.Failure
+	wd := e2e.Go(func() {
+		if _, err := e2e.WriteStream(w, st); err != nil {
+			wf = &e2e.Failure{Kind: dir + ":write-error-before-close", Info: map[string]interface{}{"err": err.Error()}}
+			return
+		}
+		w.Close()
+	})
+	rd := e2e.Go(func() {
+		if _, rf = e2e.ReadStream(r, st, nil); rf != nil {
+			rf.Kind = dir + ":" + rf.Kind
+			return
+		}
+		rf = e2e.ExpectEOF(r, dir)
+	})
+	out := e2e.Wait(e2e.Go(func() { <-wd; <-rd }))
+	rec.Case(fmt.Sprintf("sibling-stalled/%s/%s", carrier, closer), out != e2e.Inconclusive)
+	rec.Seen("tuple(carrier,closer,mode,len-class,others,reverse)", fmt.Sprintf("%s|%s|sibling-target-does-not-read|%s|1|idle", carrier, closer, lenName(c.Len)))
+	f := wf
+	if f == nil {
+		f = rf
+	}
+	if out == e2e.Stalled && f == nil {
+		f = &e2e.Failure{Kind: dir + ":stalled-before-end-of-stream"}
+	}
+	if out == e2e.Inconclusive {
+		rec.Inconclusive("busy at watchdog", c)
+		return
+	}
+	if f != nil {
+		info := map[string]interface{}{"detail": f.Info, "sibling_bytes_written": atomic.LoadInt64(&wrote)}
+		rec.Violation(fmt.Sprintf("%s:closer=%s:sibling-target-does-not-read:%s", carrier, closer, f.Kind), c, info)
+		return
+	}
+	rec.Stat("closes_verified", 1)
+	rec.Stat("closes_verified_while_a_sibling_target_did_not_read", 1)
+}
+
 // runInstantClose: the application connects and closes at once without writing a byte (payload 0, application first),
 // one connection after the other. The target must see each of them: a connection, no data, end-of-stream.
 func runInstantClose(rec *vcommon.Rec, carrier string, total int) {
@@ -636,6 +734,9 @@ func TestVerifC17(t *testing.T) {
 			fmt.Sscanf(c.Mode[len("many-closes:"):], "%d", &n)
 			runManyCloses(rec, c.Carrier, c.Closer, n)
 			return
+		case c.Mode == "sibling-target-does-not-read":
+			runSiblingStalled(rec, c.Carrier, c.Closer)
+			return
 		case strings.HasPrefix(c.Mode, "connect-and-close-at-once:"):
 			n := 150
 			fmt.Sscanf(c.Mode[len("connect-and-close-at-once:"):], "%d", &n)
@@ -695,6 +796,11 @@ func TestVerifC17(t *testing.T) {
 		for i, cr := range []string{"tcp", "ws", "udp"} {
 			if rec.Mine(len(carriers) + 15 + i) {
 				runInstantClose(rec, cr, rec.Pick(150, 1000))
+			}
+		}
+		for i, x := range []struct{ carrier, closer string }{{"tcp", "app"}, {"ws", "target"}, {"unix", "app"}} {
+			if rec.Mine(len(carriers) + 18 + i) {
+				runSiblingStalled(rec, x.carrier, x.closer)
 			}
 		}
 	}
